@@ -652,8 +652,23 @@ func (r *Replica) Restore(ctx context.Context, opt RestoreOptions) (err error) {
 				if latestSnapshot.MinTXID > txid {
 					return fmt.Errorf("cannot resume follow mode: saved TXID %s is behind the earliest snapshot (min TXID %s); replica history has been pruned -- delete %s and %s-txid to re-restore", txid, latestSnapshot.MinTXID, opt.OutputPath, opt.OutputPath)
 				}
-				if txid > latestSnapshot.MaxTXID {
-					return fmt.Errorf("cannot resume follow mode: saved TXID %s is ahead of latest snapshot (max TXID %s); delete %s and %s-txid to re-restore", txid, latestSnapshot.MaxTXID, opt.OutputPath, opt.OutputPath)
+
+				// A follower is normally ahead of the latest snapshot: snapshots
+				// are taken rarely while level 0 keeps advancing. Only a saved
+				// TXID beyond everything the replica holds at any level means
+				// the replica was reset and cannot be followed from here.
+				replicaMaxTXID := latestSnapshot.MaxTXID
+				for level := 0; level < SnapshotLevel; level++ {
+					info, err := r.MaxLTXFileInfo(ctx, level)
+					if err != nil {
+						return fmt.Errorf("cannot validate saved TXID for crash recovery: %w", err)
+					}
+					if info.MaxTXID > replicaMaxTXID {
+						replicaMaxTXID = info.MaxTXID
+					}
+				}
+				if txid > replicaMaxTXID {
+					return fmt.Errorf("cannot resume follow mode: saved TXID %s is ahead of the replica (max TXID %s); delete %s and %s-txid to re-restore", txid, replicaMaxTXID, opt.OutputPath, opt.OutputPath)
 				}
 			}
 
